@@ -155,6 +155,17 @@ def c02(ck):
                     for cap in range(len(pre), len(nm.encode("utf-8")) + 2):
                         ses.append("%d 16 1 d%d b:%s;b:09;b:0d" % (cap, k, gen.hx(pre)))
 
+    # the library's own messages that quote what was typed: an unknown short option / long option / argument made of boundary scalars of
+    # every encoded length (the short option goes through char_pop_front and back through encode_utf8)
+    for k, s_ in enumerate(sets):
+        nm0 = (declgen.all_names(s_) or ["x"])[0]
+        for cp in gen.BOUNDARY_CPS + [0xE01, 0xFFF, 0x1000, 0xBF, 0x3F000]:
+            ch = chr(cp)
+            for tail in ("-" + ch, "-v" + ch, "--" + ch + "x", ch + ch):
+                ses.append(lines_to_session(k, [declgen.q(nm0) + " " + declgen.q(tail)], cap=60))
+                if k > 2:
+                    break
+
     def oracle_all(case, io):
         st = parse_steps(io)
         if st is None:
@@ -202,6 +213,46 @@ def sinkb(sink):
         return ""
     ops = sink.split(",")
     return "".join(o[1:] for o in ops if o.startswith("W") and o != "W.") + ("!" if any(o.startswith("X") for o in ops) else "")
+
+
+def hist_entries_of(field):
+    raw = field.split("/")[0]
+    b = bytes.fromhex(raw) if raw not in (".", "", "-") else b""
+    return b.split(b"\x00")[:-1] if b else []
+
+
+def make_abstract_oracle(cases):
+    """direct oracle for whole sessions (scripted handler, working sink): the ABSTRACT SESSION of Spec/Session.v (ideal editor over scalar
+    values, history as an entry list, dispatch = tokens of the line unless help / rejected), extracted and run on the events the extracted
+    decoder makes of the bytes (driver engine aspec). After every input byte the implementation's line, cursor, retained history entries
+    and handler calls must be those of the abstract session - this is the statement of C01_dispatch / C05_cli / C10_cli evaluated on the
+    implementation instead of the model."""
+    usable = lambda c: " raw " in c and "x:" not in c
+    todo = [c for c in cases if usable(c)]
+    cache = dict(zip(todo, drv_run("aspec", todo))) if todo else {}
+
+    def oracle(case, io):
+        if not usable(case):
+            return None
+        st = parse_steps(io)
+        if st is None:
+            return "crash / malformed output: " + io[:300]
+        a = cache.get(case)
+        if a is None:
+            a = drv_run("aspec", [case])[0]
+        recs = a.split(" ; ")
+        if len(recs) != len(st):
+            return "abstract session has %d steps, implementation %d" % (len(recs), len(st))
+        for k, (r, s_) in enumerate(zip(recs, st)):
+            t, c, h, calls = r.split("|")
+            ih = ",".join(e.hex() for e in hist_entries_of(s_["hist"])) or "-"
+            if s_["hist"] == "-":
+                ih = h
+            if (s_["text"], s_["cur"], ih, s_["calls"]) != (t, c, h, calls):
+                return ("step %d: the abstract session (ideal line / abstract history / dispatch) has line %s cursor %s history [%s] calls %s, "
+                        "the implementation has line %s cursor %s history [%s] calls %s" % (k, t, c, h, calls, s_["text"], s_["cur"], ih, s_["calls"]))
+        return None
+    return oracle
 
 
 # ------------------------------------------------------------------ C07 tokenisation
@@ -416,7 +467,7 @@ def c05(ck):
     # through the whole Cli
     m = 6000 if thorough else 3000
     ses = [gen.rand_session(rng, 30, api=False) for _ in range(m)]
-    ck.run_family(Family("session-line", "ses", ses, shrink=core.shrink_ops_line(4), decisive=False,
+    ck.run_family(Family("session-line", "ses", ses, shrink=core.shrink_ops_line(4), decisive=False, oracle=make_abstract_oracle(ses),
                          project=lambda o: [(s["text"], s["cur"]) for s in (parse_steps(o) or [])] or o,
                          nontrivial=lambda c, o: "1b5b44" in c))
     return ck.finish(trusted=TB_COMMON, rule="editor-ops: every sequence of <= depth operations over {insert a/e-acute/euro/emoji, left, right, remove} for buffer sizes 0..8, "
@@ -519,7 +570,8 @@ def c10(ck):
                 return "Enter at step %d on line %s: HistSpec.hs_push gives entries [%s], implementation retains [%s]" % (k, st[k - 1]["text"], want, got)
         return None
 
-    ck.run_family(Family("session-recall", "ses", ses, oracle=oracle_ses, shrink=core.shrink_ops_line(4), decisive=False,
+    abstract = make_abstract_oracle(ses)
+    ck.run_family(Family("session-recall", "ses", ses, oracle=lambda c, o: oracle_ses(c, o) or abstract(c, o), shrink=core.shrink_ops_line(4), decisive=False,
                          project=lambda o: [(s["text"], s["hist"]) for s in (parse_steps(o) or [])] or o,
                          nontrivial=lambda c, o: "1b5b41" in c and "0d" in c))
     return ck.finish(trusted=TB_COMMON, rule="history-ops: every sequence of <= depth operations over push a/b/e-acute/ab, older, newer for history sizes 0..10 plus random "
@@ -906,7 +958,8 @@ def c01(ck):
                 return "line not empty after a dispatch: text=%s cursor=%s" % (s_["text"], s_["cur"])
         return None
 
-    ck.run_family(Family("session-dispatch", "ses", ses, oracle=oracle, project=proj, shrink=core.shrink_ops_line(4),
+    abstract = make_abstract_oracle(ses)
+    ck.run_family(Family("session-dispatch", "ses", ses, oracle=lambda c, o: oracle(c, o) or abstract(c, o), project=proj, shrink=core.shrink_ops_line(4),
                          nontrivial=lambda c, o: "(" in o))
     # the same with a sink that fails at arbitrary calls (once or for good) and API calls in between: whatever fails, one Enter calls the handler
     # at most once and the line is empty after a dispatch - so nothing is dispatched a second time by the next Enter
@@ -1092,7 +1145,7 @@ def c11(ck):
                          nontrivial=lambda c, o: True))
     m = 6000 if thorough else 3000
     ses = [gen.rand_session(rng, 30, api=False) for _ in range(m)]
-    ck.run_family(Family("session-tab", "ses", ses, shrink=core.shrink_ops_line(4), decisive=False,
+    ck.run_family(Family("session-tab", "ses", ses, shrink=core.shrink_ops_line(4), decisive=False, oracle=make_abstract_oracle(ses),
                          project=lambda o: [(s_["text"], s_["cur"]) for s_ in (parse_steps(o) or [])] or o,
                          nontrivial=lambda c, o: ";b:09" in c))
     return ck.finish(trusted=TB_COMMON, rule="editor-completion: name sets with shared prefixes, prefix-of-another, multi-byte names, every order; line = blanks + prefix of a name (or random) "
